@@ -11,7 +11,7 @@ Arguments N.land : simpl never. Arguments N.lor : simpl never. Arguments N.lxor 
 Arguments N.shiftl : simpl never. Arguments N.shiftr : simpl never. Arguments N.min : simpl never.
 Arguments N.pow : simpl never.
 
-Definition byte := N.
+Notation byte := N (only parsing).
 
 (* outcome of a Rust computation: a value, or a panic (slice out of range, copy_from_slice length
    mismatch, unwrap on None/Err, unreachable!, todo!, checked integer overflow, division by zero) *)
